@@ -141,12 +141,22 @@ pub fn run_schedule(bodies: &[Body], prefix: &[usize]) -> Exec {
 /// Choice-prefix DFS with a preemption bound. `check` is called after every
 /// complete execution with the schedule; returns (executions, points of the
 /// longest execution, divergences).
+/// An exploration is abandoned after this many executions (never reached on
+/// the unchanged library: the largest exploration of the thorough tier has
+/// well under a tenth of it). A change that multiplies the scheduling points
+/// of an operation would otherwise make the DFS run for hours.
+pub static EXEC_CAP: std::sync::atomic::AtomicU64 = std::sync::atomic::AtomicU64::new(20_000);
+
 pub fn explore(bodies: &[Body], bound: usize, reset: &dyn Fn(), check: &mut dyn FnMut(&Exec)) -> (u64, usize, u64) {
+    let cap = EXEC_CAP.load(std::sync::atomic::Ordering::Relaxed);
     let mut stack: Vec<Vec<usize>> = vec![vec![]];
     let mut execs = 0u64;
     let mut maxpoints = 0usize;
     let mut div = 0u64;
     while let Some(prefix) = stack.pop() {
+        if execs >= cap {
+            break;
+        }
         reset();
         let x = run_schedule(bodies, &prefix);
         execs += 1;
@@ -244,6 +254,7 @@ impl Subject {
 }
 
 pub const NOPS: usize = 17;
+static CUR_OP: Mutex<String> = Mutex::new(String::new());
 
 pub fn op_name(op: usize) -> &'static str {
     [
@@ -413,7 +424,20 @@ pub fn run(rep: &Report) -> i32 {
     self_tests(rep);
     let subs = subjects();
     // expected results on fresh searchers
-    let expected: Vec<Vec<String>> = subs.iter().map(|s| (0..NOPS).map(|op| run_op(&s.build(), s, op)).collect()).collect();
+    crate::report::arm("computing the results of every operation on fresh searchers (main thread)");
+    let expected: Vec<Vec<String>> = subs
+        .iter()
+        .map(|s| {
+            (0..NOPS)
+                .map(|op| {
+                    *CUR_OP.lock().unwrap() = format!("{} on {}", op_name(op), s.name);
+                    crate::report::arm(&format!("{} on a fresh searcher {} {}", op_name(op), s.name, pats_show(&s.pats)));
+                    run_op(&s.build(), s, op)
+                })
+                .collect()
+        })
+        .collect();
+    crate::report::disarm();
     // a second fresh build must agree (determinism of the oracle)
     for (si, s) in subs.iter().enumerate() {
         for op in 0..NOPS {
@@ -571,7 +595,21 @@ pub fn run(rep: &Report) -> i32 {
                 let text = String::from_utf8_lossy(&out.stdout);
                 match text.lines().rev().find(|l| l.starts_with('{')).map(json::parse) {
                     Some(Ok(j)) => rep.import(&j),
-                    _ => rep.machinery(format!("schedule child gave no result (status {:?})", out.status)),
+                    _ => {
+                        if out.status.code() == Some(1) && text.contains("VIOLATION") {
+                            // the child's own watchdog fired: the code under test does not terminate
+                            let line = text.lines().find(|l| l.contains("what=")).unwrap_or("").trim().to_string();
+                            rep.violation(Violation {
+                                property: rep.property.clone(),
+                                what: "no-progress".into(),
+                                case: J::obj().set("engine", J::s("hang")).set("tier", J::s(rep.tier.clone())).set("item", J::i(-1)).set("item_desc", J::s(line.clone())),
+                                detail: format!("a schedule-exploration child made no progress: {}", line),
+                                tags: vec![],
+                            });
+                        } else {
+                            rep.machinery(format!("schedule child gave no result (status {:?})", out.status));
+                        }
+                    }
                 }
             }
             Err(e) => rep.machinery(format!("schedule child failed: {}", e)),
@@ -649,15 +687,28 @@ pub fn sched_child(tier: &str, c: usize, n: usize) -> i32 {
     let rep = Report::new("C17", tier);
     let t = rep.thorough();
     let bound = if t { 3 } else { 2 };
+    EXEC_CAP.store(if t { 400_000 } else { 5_000 }, std::sync::atomic::Ordering::Relaxed);
     aho_corasick::verif::set_sched_hook(Some(sched_point));
     let subs = subjects();
-    let expected: Vec<Vec<String>> = subs.iter().map(|s| (0..NOPS).map(|op| run_op(&s.build(), s, op)).collect()).collect();
+    crate::report::arm("schedule child: computing expectations");
+    let expected: Vec<Vec<String>> = subs
+        .iter()
+        .map(|s| {
+            (0..NOPS)
+                .map(|op| {
+                    crate::report::arm(&format!("{} on a fresh searcher {} {}", op_name(op), s.name, pats_show(&s.pats)));
+                    run_op(&s.build(), s, op)
+                })
+                .collect()
+        })
+        .collect();
     let sitems = sched_items(t, &subs);
     let mut stats = Stats::default();
     let st = &mut stats;
     let rep = &rep;
     for ix in (0..sitems.len()).filter(|i| i % n == c) {
         let it = &sitems[ix];
+        crate::report::arm(&format!("schedules of {:?} on {}", it.ops.iter().map(|&o| op_name(o)).collect::<Vec<_>>(), subs[it.s].name));
         let s = &subs[it.s];
         // the searcher (and its clone) are rebuilt before every execution, so
         // that executions are independent of each other
@@ -703,6 +754,7 @@ pub fn sched_child(tier: &str, c: usize, n: usize) -> i32 {
                 *slot.lock().unwrap() = (a, c2);
             },
             &mut |x| {
+                crate::report::beat();
                 let got = res2.lock().unwrap().clone();
                 outcomes.insert(got.clone());
                 for (k, &op) in it.ops.iter().enumerate() {
@@ -723,6 +775,16 @@ pub fn sched_child(tier: &str, c: usize, n: usize) -> i32 {
         );
         st.add("schedules", execs);
         st.add("schedule_explorations", 1);
+        if execs >= EXEC_CAP.load(std::sync::atomic::Ordering::Relaxed) {
+            rep.machinery(format!(
+                "schedule exploration of {:?} on {} abandoned after {} executions (longest execution had {} scheduling points): far more than this operation pair has on the unchanged library",
+                it.ops.iter().map(|&o| op_name(o)).collect::<Vec<_>>(), s.name, execs, points
+            ));
+        }
+        if execs > 5_000 {
+            st.add("explorations_over_5k_executions", 1);
+        }
+        rep.set_add("largest_explorations", format!("{:08} executions: {:?} on {}", execs, it.ops.iter().map(|&o| op_name(o)).collect::<Vec<_>>(), s.name));
         st.add("max_points", points as u64);
         if points > 2 * it.ops.len() {
             st.add("explorations_with_real_interleaving", 1);
@@ -748,6 +810,7 @@ pub fn sched_child(tier: &str, c: usize, n: usize) -> i32 {
         }
     
     }
+    crate::report::disarm();
     rep.merge(&stats);
     aho_corasick::verif::set_sched_hook(None);
     println!("{}", rep.export().to_string());
